@@ -1,6 +1,5 @@
 import AgVerif.Model.Paths
 import AgVerif.Spec.Portable
-import Mathlib.Data.List.Nodup
 /-! Lemmas for C38 (clean_file_name) -/
 set_option linter.unusedSimpArgs false
 set_option linter.unusedVariables false
@@ -592,6 +591,10 @@ theorem length_suffixOf (c : Nat) (hc : c < 10 ^ 100) : (suffixOf c).length ≤ 
   have : (natDigits c).length ≤ 100 := (Nat.length_toDigits_le_iff (by decide) (by decide)).mpr hc
   simp; omega
 
+theorem fix_id (rep X : List Char) (hlen : X.length ≤ M) (hlast : LastOK X) :
+    (subTrailing rep (X.take M)).take M = X := by
+  rw [List.take_of_length_le hlen, subTrailing_id rep X hlast, List.take_of_length_le hlen]
+
 /-- with room for the whole counter, `shorten` only cuts the stem -/
 theorem cand_exact (rep base : List Char) (c : Nat) (hcl : Clean base) (ht : NoTrail base) (hc : c < 10 ^ 100) :
     cand rep base c =
@@ -603,17 +606,13 @@ theorem cand_exact (rep base : List Char) (c : Nat) (hcl : Clean base) (ht : NoT
   have hM : M = 230 := rfl
   have hD : Gen.Paths.extDivisor = 2 := rfl
   rw [hD, hM] at h1
-  set X := (stemOf M base).take (M - (suffixOf c).length - (tailOf M base).length) ++ suffixOf c ++ tailOf M base with hX
-  have hlen : X.length ≤ M := by
-    rw [hX]; simp only [List.length_append, List.length_take]
+  apply fix_id
+  · simp only [List.length_append, List.length_take]
     rw [hM]; omega
-  have hlast : LastOK X := by
-    by_cases hne : tailOf M base = []
-    · rw [hX, hne, List.append_nil]
+  · by_cases hne : tailOf M base = []
+    · rw [hne, List.append_nil]
       exact lastOK_append_right _ _ (by rw [suffixOf_eq]; simp) (lastOK_suffixOf c)
-    · rw [hX]
-      exact lastOK_append_right _ _ hne (lastOK_tailOf M base hcl ht hne)
-  rw [List.take_of_length_le hlen, subTrailing_id rep X hlast, List.take_of_length_le hlen]
+    · exact lastOK_append_right _ _ hne (lastOK_tailOf M base hcl ht hne)
 
 theorem natDigits_injective (i j : Nat) (h : natDigits i = natDigits j) : i = j := by
   have hi : Nat.ofDigitChars 10 (Nat.toDigits 10 i) 0 = i := Nat.ofDigitChars_ten_toDigits
@@ -659,8 +658,12 @@ theorem uniqueLoop_terminates (isfile : Path → Bool) (files : List Path) (hfil
     simp at this
     exact hfiles _ this
   have hnd : L.Nodup := by
-    apply List.Nodup.map_on _ List.nodup_range
-    intro i hi j hj hij
+    have hrange : (List.range (n + 1)).Pairwise (· ≠ ·) := List.nodup_range
+    show List.Pairwise (· ≠ ·) L
+    rw [List.pairwise_map]
+    refine List.Pairwise.imp_of_mem ?_ hrange
+    intro i j hi hj hne hij
+    apply hne
     simp only [List.mem_range] at hi hj
     have e := join2_injective dir _ _ (sep_not_mem_of_clean _ (clean_cand rep base i hr hcl))
       (sep_not_mem_of_clean _ (clean_cand rep base j hr hcl)) hij
